@@ -1,4 +1,6 @@
 """C20 Tickets are never forged, duplicated, zeroed or merged incorrectly."""
+import contextlib
+
 from harness import mbv, mich
 from vf.core import Ob
 
@@ -6,7 +8,7 @@ TARGETS = ['pytezos.michelson.instructions.ticket.TicketInstruction.execute', 'p
            'pytezos.michelson.instructions.ticket.JoinTicketsInstruction.execute', 'pytezos.michelson.instructions.ticket.ReadTicketInstruction.execute',
            'pytezos.michelson.types.ticket.TicketType.split/join/create/to_comb', 'pytezos.michelson.types.base.MichelsonType.is_duplicable/duplicate',
            'pytezos.michelson.instructions.stack.DupInstruction.execute', 'pytezos.michelson.instructions.stack.DupnInstruction.execute']
-STUBS = ['execution context -> get_self_address() returns a fixed KT1 address', 'format_stdout -> no-op']
+STUBS = ['hash() inside types/ticket.py (not called on the unchanged tree) -> model of CPython integer hashing on symbolic ints; hashing of other symbolic contents is outside the claim', 'execution context -> get_self_address() returns a fixed KT1 address', 'format_stdout -> no-op']
 BOUNDS = 'amounts: all naturals (unbounded); contents: int (unbounded) or string <= 2; ticketers from 2 addresses; one instruction from an arbitrary valid ticket state, plus SPLIT;JOIN and TICKET;SPLIT;JOIN programs'
 OUTSIDE = ['ticket transfer between contracts', 'programs longer than 3 ticket instructions']
 ASSUMPTIONS = ['state invariant: every existing ticket has a positive amount (what the property demands of every producer)']
@@ -54,6 +56,45 @@ def _run_ticket(item, amount):
     return out[0]
 
 
+@contextlib.contextmanager
+def _hash_env():
+    """hash() inside types/ticket.py -> model of CPython's integer hash on symbolic ints (x mod 2^61-1 with sign, -1 -> -2); other symbolic contents: outside the claim."""
+    import pytezos.michelson.types.ticket as t_tic
+    from vf import bvx
+
+    M = (1 << 61) - 1
+
+    def int_hash(v):
+        if isinstance(v, (bvx.IntZ, bvx.SymInt)):
+            neg = v < 0
+            a = abs(v) % M
+            h = bvx.IntZ(__import__('z3').If(bvx._b(neg), (-a).e if isinstance(a, bvx.IntZ) else bvx.bv(-a), a.e if isinstance(a, bvx.IntZ) else bvx.bv(a))) if isinstance(v, bvx.IntZ) else None
+            if h is None:
+                raise bvx.Abort()
+            return bvx.IntZ(__import__('z3').If(h.e == -1, __import__('z3').IntVal(-2), h.e))
+        return hash(v)
+
+    def _hash(x):
+        v = getattr(x, 'value', x)
+        if isinstance(v, (bvx.IntZ, bvx.SymInt)):
+            return int_hash(v)
+        try:
+            return hash(x)
+        except TypeError:
+            raise bvx.Abort()
+
+    had = 'hash' in t_tic.__dict__
+    old = t_tic.__dict__.get('hash')
+    t_tic.hash = _hash
+    try:
+        yield
+    finally:
+        if had:
+            t_tic.hash = old
+        else:
+            del t_tic.hash
+
+
 def sym_ticket(P, ex):
     cty = mich.T(P['contents'])
     with mbv.env():
@@ -90,6 +131,11 @@ def _run_split(t, a, b):
 
 
 def sym_split(P, ex):
+    with _hash_env():
+        return _sym_split(P, ex)
+
+
+def _sym_split(P, ex):
     from vf import bvx
 
     cty = mich.T(P['contents'])
@@ -151,6 +197,11 @@ def conc_split(P, w):
 
 # ---- JOIN_TICKETS ---------------------------------------------------------------------------------
 def sym_join(P, ex):
+    with _hash_env():
+        return _sym_join(P, ex)
+
+
+def _sym_join(P, ex):
     from vf import bvx
 
     cty = mich.T(P['contents'])
